@@ -5,7 +5,7 @@ V = os.path.dirname(os.path.dirname(os.path.abspath(__file__)))
 res = json.load(open(os.path.join(V, "seeded", "RESULTS.json")))
 rows = []
 cnt = {}
-for d in sorted(glob.glob(os.path.join(V, "seeded", "[STUVWXY]*_*"))):
+for d in sorted(glob.glob(os.path.join(V, "seeded", "[STUVWXYZ]*_*"))):
     m = json.load(open(os.path.join(d, "meta.json")))
     r = res.get(m["id"], {})
     verdict = r.get("verdict", "not run")
@@ -31,7 +31,7 @@ for d in sorted(glob.glob(os.path.join(V, "seeded", "[STUVWXY]*_*"))):
             what = ln[:140]
             break
     rows.append("| %s | %s | %s | %s | %s | `%s` |" % (m["id"], ",".join(m["breaks"]), ", ".join(files), what.replace("|", "/"), verdict.replace(" (exit 2)", ""), ob.replace("|", "\\|")[:120]))
-txt = "%d breaking changes were written by independent sub-agents that saw only the text of a property and a scratch worktree of /repo (nothing from /verif), in seven rounds (`S*` against the tree before the repairs, `T*` against 346b94f, `U3*` - two cooperating sites / multi-step sequences - and `V4*` - one-line slips - against 53178b9, `W5*` for C20, `X6*` for C13 and `Y7*` for the serial -> date direction of C18 (thorough tier) against d243e00)." % len(rows) + " Each was confirmed independently (`tools/confirm_seed.sh`: applies, compiles, the 95 baseline tests pass, the demo fails with it and passes without it) and is kept under `seeded/<id>/` (patch, demo, notes, confirm log, meta). `tools/seed_matrix.py` applies each to /repo, runs the checks of the properties it breaks and undoes it.\n\n"
+txt = "%d breaking changes were written by independent sub-agents that saw only the text of a property and a scratch worktree of /repo (nothing from /verif), in eight rounds (`S*` against the tree before the repairs, `T*` against 346b94f, `U3*` - two cooperating sites / multi-step sequences - and `V4*` - one-line slips - against 53178b9, `W5*` for C20, `X6*` for C13 `Y7*` for the serial -> date direction of C18 (thorough tier) and `Z8*` for the lookup / remove / bulk-remove functions of the cell store (C10) against d243e00)." % len(rows) + " Each was confirmed independently (`tools/confirm_seed.sh`: applies, compiles, the 95 baseline tests pass, the demo fails with it and passes without it) and is kept under `seeded/<id>/` (patch, demo, notes, confirm log, meta). `tools/seed_matrix.py` applies each to /repo, runs the checks of the properties it breaks and undoes it.\n\n"
 txt += "**Result: %s.** No seeded change is accepted as holding (exit 0). The undecided ones left the subset the verifier can read (array-of-&mut iteration, iterator-chain rewrites, `continue` inside `for`, a call to a function the unit does not contain, a newly extracted helper): the check says exit 2 'unsupported construct', never 'holds'.\n\n" % ", ".join("%d %s" % (v, k) for k, v in sorted(cnt.items()))
 txt += "| id | breaks | file(s) | what the change does | verdict | failing obligation / reason |\n|---|---|---|---|---|---|\n" + "\n".join(rows) + "\n\n"
 nt = os.path.join(V, "neutral", "RESULTS.txt")
@@ -51,7 +51,7 @@ if os.path.exists(nt):
             "(2) N36: an explicit `value.into()` before a generic setter could not be related to the contract's `sp_into` (now defined through vstd's `IntoSpec`); "
             "(3) N40/N42/N43: added `debug_assert!`s about std collections that Verus cannot prove were reported as violations (a failing obligation whose span lies in a std macro is now *undecided*, section 2.4); "
             "(4) N60: two option getters hoisted out of the CSV loops left a `!= \"\"` test and a `format!` outside their outlines - Verus accepts both silently without giving them a meaning, the field assertion failed (a failure in a function that no longer matches its template, or that contains such an opaque macro, is now *undecided*, section 2.4). "
-            "Besides, outline anchors accept renamed closure parameters, `Cells::add/remove` verify without proof hints, loops are found by their header rather than their ordinal, and every reported failure is re-verified with its function alone (solver-instability guard). Exit 2 remains the answer when a refactoring rewrites an outlined statement.\n")
+            "Besides, outline anchors accept renamed closure parameters, `Cells::add/remove` verify without proof hints, loops are found by their header rather than their ordinal, and every reported failure is re-verified with its function alone (solver-instability guard). Exit 2 remains the answer when a refactoring rewrites an outlined statement. **One open case (recorded, not repaired):** a new early-exit *optimisation* of `Cells::adjustment_remove_coordinate` with the correct bound (`max < root`, the repaired form of seed Z8_2) is reported as a failed postcondition (exit 1, `no-failing-input-found`): the shortcut is right only because of the representation invariant `wf` and the index-maximum facts, an argument the existing proof does not contain and Verus does not find unprompted. A failed obligation without a counterexample means *the proof did not go through*; for a change that adds a new reason for correctness (rather than rearranging the existing one) the contract author has to add the lemma - the check cannot tell the two apart.\n")
 s = open(os.path.join(V, "DESIGN.md")).read()
 i = s.index("<!--SEEDED-BEGIN-->") + len("<!--SEEDED-BEGIN-->")
 j = s.index("<!--SEEDED-END-->")
